@@ -148,6 +148,7 @@ func (e *Engine) eventEnv(st *State, fr *Frame, ev *EventClause, args []Val) *En
 }
 
 func (e *Engine) runEvent(st *State, fr *Frame, ev *EventClause, env *Env, what string, pos token.Pos, ins ssa.Instruction) {
+	ev.Fired++
 	for _, u := range ev.Uses {
 		// only instances of built-in, valid lemmas may be assumed
 		if u.Expr.Op != "call" || !builtinLemmas[u.Expr.Name] {
@@ -405,11 +406,28 @@ func (e *Engine) specBuiltin(env *Env, name string, ex *SExpr) (Val, bool) {
 		row := sel(env.heap(hn, hs), slRef(sv.S))
 		off := slOff(sv.S)
 		reg.declareFun("elems!Int", []string{"(Array Int Int)", "Int", "Int"}, "(Array Int Bool)")
-		rn := env.st.freshConst("elemsrow", "(Array Int Int)")
-		env.st.assume(eq(rn, row))
-		env.st.assume(fmt.Sprintf("(= (elems!Int %s %s 0) ((as const (Array Int Bool)) false))", rn, off))
-		env.st.assume(fmt.Sprintf("(forall ((n!e Int)) (! (=> (> n!e 0) (= (elems!Int %s %s n!e) (store (elems!Int %s %s (- n!e 1)) (select %s %s) true))) :pattern ((elems!Int %s %s n!e))))",
-			rn, off, rn, off, rn, ix(off, "(- n!e 1)"), rn, off))
+		ckey := row + "|" + off
+		rn, seen := env.st.elemsDone[ckey]
+		if !seen {
+			rn = env.st.freshConst("elemsrow", "(Array Int Int)")
+			env.st.assume(eq(rn, row))
+			env.st.assume(fmt.Sprintf("(= (elems!Int %s %s 0) ((as const (Array Int Bool)) false))", rn, off))
+			// elems(s, n) is the set of the first n elements: characterised by the element-set lemma (valid by induction on n for
+			// the recursive definition elems(s, n) = elems(s, n-1) + {s[n-1]}); the witness index is a Skolem function. The
+			// recursive definition itself is not given to the solver (it is a matching loop).
+			reg.declareFun("elemsIdx!Int", []string{"(Array Int Int)", "Int", "Int", "Int"}, "Int")
+			e.assumptions["element-set lemma (induction on n, not machine-checked): x in elems(s, n) <=> some index i < n has s[i] == x"] = true
+			env.st.assume(fmt.Sprintf("(forall ((n!e Int) (x!e Int)) (! (=> (select (elems!Int %s %s n!e) x!e) (and (<= 0 (elemsIdx!Int %s %s n!e x!e)) (< (elemsIdx!Int %s %s n!e x!e) n!e) (= (select %s %s) x!e))) :pattern ((select (elems!Int %s %s n!e) x!e))))",
+				rn, off, rn, off, rn, off, rn, ix(off, fmt.Sprintf("(elemsIdx!Int %s %s n!e x!e)", rn, off)), rn, off))
+			env.st.assume(fmt.Sprintf("(forall ((n!e Int) (i!e Int)) (! (=> (and (<= 0 i!e) (< i!e n!e)) (select (elems!Int %s %s n!e) (select %s %s))) :pattern ((elems!Int %s %s n!e) (select %s %s))))",
+				rn, off, rn, ix(off, "i!e"), rn, off, rn, ix(off, "i!e")))
+			nd := make(map[string]string, len(env.st.elemsDone)+1)
+			for k, v := range env.st.elemsDone {
+				nd[k] = v
+			}
+			nd[ckey] = rn
+			env.st.elemsDone = nd
+		}
 		return Val{S: fmt.Sprintf("(elems!Int %s %s %s)", rn, off, n.S), T: &ghostMapType{key: slt.Elem(), elem: tBool}}, true
 	case "same":
 		// same(a, b): two slices have the same header (backing array, offset, length)
